@@ -26,7 +26,14 @@ type Loader struct {
 	LoadSecs     float64
 }
 
-const repoDir = "/repo"
+// repoDir is the tree under verification; GOVC_REPO points development runs at a scratch worktree
+// (registered checks never set it).
+var repoDir = func() string {
+	if d := os.Getenv("GOVC_REPO"); d != "" {
+		return d
+	}
+	return "/repo"
+}()
 const modPath = "golang.org/x/net"
 
 func goEnv() []string {
